@@ -321,5 +321,32 @@ func TestIfNeedBacktracking(mappings []string, orderingDisabled bool, logger *sl
 	// note: don't move this branch to the beginning of this function
 	// since we need logs for superset rules
 
-	return !orderingDisabled || backtrackingNeeded
+	return !orderingDisabled || backtrackingNeeded || hasAmbiguousWildcard(mappings)
+}
+
+// hasAmbiguousWildcard reports whether some state of the FSM would have both a
+// "*" transition and a literal transition, i.e. whether two rules share the
+// same fields up to a position where one has "*" and the other a literal.
+// Taking the literal transition first can then lead to a dead end although the
+// "*" transition leads to a match, so the search has to be able to backtrack.
+func hasAmbiguousWildcard(mappings []string) bool {
+	wildcardPrefixes := make(map[string]bool)
+	literalPrefixes := make(map[string]bool)
+	for _, mapping := range mappings {
+		fields := strings.Split(mapping, ".")
+		for i, field := range fields {
+			prefix := strings.Join(fields[:i], ".")
+			if field == "*" {
+				wildcardPrefixes[prefix] = true
+			} else {
+				literalPrefixes[prefix] = true
+			}
+		}
+	}
+	for prefix := range wildcardPrefixes {
+		if literalPrefixes[prefix] {
+			return true
+		}
+	}
+	return false
 }
